@@ -23,7 +23,8 @@ EXPLANATION = (
     'order) and the behaviour of multiprocessing itself are not decided.'
     ' Third round: no working object of parse_sentence has static / thread storage (locals:automatic).'
     ' Fifth round: the rule cache never shrinks during a search (lambdas included).'
-    ' Sixth and seventh round: no module-level state in the grammar modules (R11.5), Tree carries every field through pickle and the categories use the generated hash (R11.3), no option name captured by a named parameter of run() (R11.4).')
+    ' Sixth and seventh round: no module-level state in the grammar modules (R11.5), Tree carries every field through pickle and the categories use the generated hash (R11.3), no option name captured by a named parameter of run() (R11.4).'
+    ' Eighth round: nothing is done to the gathered results after the gather (R11.3); a tree is rebuilt per n-best entry, not shared below a chart item (R11.4).')
 TRUSTED = ['CPython ast', 'clang-14 front end', 'sa/pyx.py normaliser', 'multiprocessing.Pool.apply_async/.get semantics']
 
 REL = 'depccg/parsing.py'
